@@ -878,6 +878,45 @@ def s_Null_least(ev, G, X): return SV(BOOL, Null_least(G, X.z))
 def s_UReach_least(ev, G, A, X): return SV(BOOL, UReach_least(G, A.z, X.z))
 
 
+re_fullmatch = Function('re_fullmatch', Atom, Atom, BoolSort())      # re.fullmatch(expression, string) is not None: uninterpreted (C17)
+@spec('re_fullmatch')
+def s_re_fullmatch(ev, r, x): return SV(BOOL, re_fullmatch(r.z, x.z))
+
+
+# ---- tokenised automaton descriptions (C17): sets read off the list of transitions / a list of names; explicit definitions (set comprehensions)
+_LT3 = LIST(KEY3); _LT3s = sort_of(_LT3); _LA = LIST(ATOM); _LAs = sort_of(_LA)
+tr_labels = Function('tr_labels', _LT3s, Int, SetA)                      # labels of the first n transitions
+tr_ends = Function('tr_ends', _LT3s, Int, SetA)                          # end points of the first n transitions
+tr_keys = Function('tr_keys', _LT3s, Int, sort_of(SET(KEY2)))            # (source, label) of the first n transitions
+list_elems = Function('list_elems', _LAs, SetA)                          # the elements of a list of names
+def _descr_axioms():
+    L = Const('L_', _LT3s); n, t = Const('n_', Int), Const('t_', Int); x, y = Const('x_', Atom), Const('y_', Atom); M = Const('M_', _LAs)
+    arr = parts(_LT3)[3](L); el = Select(arr, t); f0, f1, f2 = [parts(KEY3)[2 + i](el) for i in range(3)]
+    axiom('descr', 'def', 'tr_labels-elim', ForAll([L, n, x], Implies(Select(tr_labels(L, n), x), Exists([t], And(0 <= t, t < n, f1 == x))), patterns=[Select(tr_labels(L, n), x)]))
+    axiom('descr', 'def', 'tr_labels-intro', ForAll([L, n, t], Implies(And(0 <= t, t < n), Select(tr_labels(L, n), f1)), patterns=[z3.MultiPattern(tr_labels(L, n), el)]))
+    axiom('descr', 'def', 'tr_ends-elim', ForAll([L, n, x], Implies(Select(tr_ends(L, n), x), Exists([t], And(0 <= t, t < n, Or(f0 == x, f2 == x)))), patterns=[Select(tr_ends(L, n), x)]))
+    axiom('descr', 'def', 'tr_ends-intro', ForAll([L, n, t], Implies(And(0 <= t, t < n), And(Select(tr_ends(L, n), f0), Select(tr_ends(L, n), f2))), patterns=[z3.MultiPattern(tr_ends(L, n), el)]))
+    axiom('descr', 'def', 'tr_keys-elim', ForAll([L, n, x, y], Implies(Select(tr_keys(L, n), mkKey2(x, y)), Exists([t], And(0 <= t, t < n, f0 == x, f1 == y))), patterns=[Select(tr_keys(L, n), mkKey2(x, y))]))
+    axiom('descr', 'def', 'tr_keys-intro', ForAll([L, n, t], Implies(And(0 <= t, t < n), Select(tr_keys(L, n), mkKey2(f0, f1))), patterns=[z3.MultiPattern(tr_keys(L, n), el)]))
+    marr = parts(_LA)[3](M); mlen = parts(_LA)[2](M)
+    axiom('descr', 'def', 'list_elems-elim', ForAll([M, x], Implies(Select(list_elems(M), x), Exists([t], And(0 <= t, t < mlen, Select(marr, t) == x))), patterns=[Select(list_elems(M), x)]))
+    axiom('descr', 'def', 'list_elems-intro', ForAll([M, t], Implies(And(0 <= t, t < mlen), Select(list_elems(M), Select(marr, t))), patterns=[z3.MultiPattern(list_elems(M), Select(marr, t))]))
+_descr_axioms()
+@spec('tr_labels')
+def s_tr_labels(ev, L, n): return SV(SET(ATOM), tr_labels(L.z, n.z))
+@spec('tr_ends')
+def s_tr_ends(ev, L, n): return SV(SET(ATOM), tr_ends(L.z, n.z))
+@spec('tr_keys')
+def s_tr_keys(ev, L, n): return SV(SET(KEY2), tr_keys(L.z, n.z))
+@spec('list_elems')
+def s_list_elems(ev, M): return SV(SET(ATOM), list_elems(M.z))
+
+
+str_contains = Function('str_contains', Atom, Atom, BoolSort())      # `value in label` on strings: uninterpreted (C17)
+@spec('str_contains')
+def s_str_contains(ev, a, v): return SV(BOOL, str_contains(a.z, v.z))
+
+
 cnf_b = Function('cnf', CFGs, BoolSort())          # the value CFG.is_chomsky() returns (assumed contract; the table specification below does not depend on it)
 @spec('cnf')
 def s_cnf(ev, G): return SV(BOOL, cnf_b(G.z))
